@@ -56,8 +56,8 @@ def install(ctx):
                           dict(wit, got=gf[0] if gf.ndim == 2 else gf, expected=ref_f[0]))
         if not probe.same(result.model_names, names) or result.central_wavelength != cw:
             ctx.violation('convolved:identity-touched', 'model order, names or wavelength changed by interpolation', wit)
-        if not probe.same(self.flux.value, fl):
-            ctx.violation('convolved:table-modified', 'the interpolated table itself was modified', wit)
+        if not probe.same(self.flux.value, fl):       # not in the statement as such; its consequence (same request, same answer later) is checked by the driver
+            ctx.event('convolved:table-modified-by-interpolate')
         return True
 
     def sed_snapshot(self, apertures):
@@ -152,8 +152,8 @@ def run(ctx):
                'interpolate_variable clamps to 0.999*a_max by design: anything between the interpolants at 0.999*a_max and a_max is accepted',
                'rtol 1e-11 (1e-9 for the composite SED)')
     ctx.require_events('ConvolvedFluxes.interpolate:post', 'SED.interpolate:post', 'SED.interpolate_variable:post', 'variable:node-checked',
-                       'refused:convolved', 'refused:sed', 'refused:variable', 'convolved:same-table-again')
-    ctx.require_regimes('single-aperture', 'unit:pc', 'unit:cm', 'sed-apertures:cm', 'above-table', 'on-knot')
+                       'refused:convolved', 'refused:sed', 'refused:variable', 'convolved:same-table-again', 'convolved:table-changed-between-calls')
+    ctx.require_regimes('single-aperture', 'convolved:no-apertures', 'unit:pc', 'unit:cm', 'sed-apertures:cm', 'above-table', 'on-knot')
     n_it = 250 if ctx.quick else 10000
     for it in range(n_it):
         n_ap = int(rng.integers(1, 9))
@@ -165,12 +165,16 @@ def run(ctx):
         tunit = str(rng.choice(['au', 'pc', 'cm']))
         cf = ConvolvedFluxes()
         cf.central_wavelength = float(gen.loguniform(rng, 0.3, 500)) * u.micron
-        cf.model_names = np.array(['m%d' % i for i in range(n_m)])
+        cf.model_names = np.array(rng.permutation(['m%d' % (i * 5 + 2) for i in range(n_m)]))      # not in lexical order
         tq = (tab * u.au).to(u.Unit(tunit))
-        cf.apertures = tq
+        no_ap = n_ap == 1 and rng.random() < 0.5
+        if no_ap:
+            ctx.regime('convolved:no-apertures')       # a table without apertures is a single-aperture table
+        else:
+            cf.apertures = tq
         fl = gen.conv_grid(rng, n_m, 1, n_ap=n_ap)[:, :, 0]
         cf.flux = fl * u.mJy
-        cf.error = fl * 0.05 * u.mJy
+        cf.error = fl * rng.uniform(0.01, 0.3, fl.shape) * u.mJy      # not proportional to the fluxes
         tab_au = np.asarray(tq.to(u.au).value, float)          # what the table is, after the user's unit choice
         req = requests(rng, tab_au, int(rng.integers(1, 7)))
         runit = str(rng.choice(['au', 'pc', 'cm']))
@@ -191,14 +195,30 @@ def run(ctx):
             ctx.regime('above-table')
         wit = {'table': tq, 'request': rq, 'n_models': n_m}
         try:
-            cf.interpolate(rq)
+            first = cf.interpolate(rq)
+            first = (probe.arr(first.flux), probe.arr(first.error))
             if it % 3 == 0:
                 # the same table interpolated again to other radii and to the first ones once more: no state may carry over
                 # (the contract snapshots request and table before every call)
                 for un2 in rng.permutation(['au', 'pc', 'cm']):       # ... and in other length units
                     cf.interpolate((requests(rng, tab_au, 3) * (1 + 1e-9) * u.au).to(u.Unit(str(un2))))
                 cf.interpolate((req * (1 + 1e-9) * u.au).to(u.Unit(runit)))
+                again = cf.interpolate(rq)
+                if not (O.close(probe.arr(again.flux), first[0], 1e-12) and O.close(probe.arr(again.error), first[1], 1e-12)):
+                    ctx.violation('convolved:same-request-other-answer', 'the same table gives another answer to the same request after other requests were served', wit)
                 ctx.event('convolved:same-table-again')
+            if it % 3 == 1:
+                # the table itself changed by the user between calls (values re-assigned; rows re-ordered with sort_to_match):
+                # every call must answer from the table as it is then (the contract snapshots it before each call)
+                fl2 = gen.conv_grid(rng, n_m, 1, n_ap=n_ap)[:, :, 0]
+                cf.flux = fl2 * u.mJy
+                cf.error = fl2 * rng.uniform(0.01, 0.3, fl2.shape) * u.mJy
+                cf.interpolate(rq)
+                new_order = np.array(rng.permutation(list(cf.model_names)))
+                cf.sort_to_match(new_order)
+                if list(cf.model_names) == list(new_order):
+                    cf.interpolate(rq)
+                    ctx.event('convolved:table-changed-between-calls')
         except Exception as exc:
             ctx.violation('convolved:raised', 'ConvolvedFluxes.interpolate raised inside the table: %r' % (exc,), wit)
         ctx.case(('cf', it, ctx.shard), nontrivial=n_ap >= 2, sample={'table_au': tab_au, 'request_au': req} if it < 3 else None)
